@@ -154,7 +154,7 @@ struct StringRun {
             after(two(pre, post));
         }
         else if (o == "erase_it_range") {
-            post.erase(pos, cnt); S::iterator r = 0;
+            post.erase(pos, cnt); S::iterator r = 0; R.kind = cnt ? "erase_it_range" : "erase_it_range-empty-range";
             R.call([&] { r = a->erase(a->begin() + pos, a->begin() + pos + cnt); });
             if (!R.threw && (size_t)(r - a->begin()) != pos) R.bad("returned-iterator", "erase(iterator, iterator) returned index " + std::to_string(r - a->begin()));
             after(two(pre, post));
@@ -178,6 +178,7 @@ struct StringRun {
         // ------------------------------------------------------------------ construction (result goes to B)
         else if (o == "copy_ctor" || o == "clone" || o == "sub_ctor" || o == "sub_ctor_npos" || o == "ctor_fill" || o == "ctor_ptr" || o == "ctor_ptr_n" || o == "ctor_narrow") {
             S* c = 0; U want; bool viaClone = false;
+            if (nul && (o == "copy_ctor" || o == "clone" || o == "sub_ctor" || o == "sub_ctor_npos")) R.kind += "-embedded-nul";
             if (o == "copy_ctor") { want = pre; R.call([&] { c = new S(*a, R.mm); }); }
             else if (o == "clone") { want = pre; viaClone = true; R.call([&] { c = a->clone(R.mm); }); }
             else if (o == "sub_ctor" || o == "sub_ctor_npos") {
